@@ -760,6 +760,39 @@ static void op_cg(Cur& c, std::ostream& o)
   o << " R " << rr.str();
 }
 
+// PCG with the Jacobi preconditioner (Solver::PCG + Solver::JacobiPrecond on Global::Matrix / Global::Vector)
+static void op_pcg(Cur& c, std::ostream& o)
+{
+  Index k = c.idx();
+  SolveCtx S(c);
+  auto r = S.fresh(), z = S.fresh(), p = S.fresh(), q = S.fresh(), inv = S.fresh();
+  // JacobiPrecond::init_numeric: extract_diag (synchronised), component_invert
+  for(std::size_t i = 0; i < S.ps.size(); ++i) S.mats[i].extract_diag(inv[i].local());
+  if(!S.sync0(inv)) { o << "DEADLOCK"; return; }
+  for(std::size_t i = 0; i < S.ps.size(); ++i) inv[i].component_invert(inv[i]);
+  if(!S.apply_axpy(r, S.xs, S.bs, Q(-1))) { o << "DEADLOCK"; return; }
+  for(std::size_t i = 0; i < r.size(); ++i) { z[i].component_product(r[i], inv[i]); p[i].copy(z[i]); }
+  Q rz = S.dot(r, z);
+  for(Index it = 0; it < k; ++it)
+  {
+    if(!S.apply(q, p)) { o << "DEADLOCK"; return; }
+    Q a = rz / S.dot(p, q);
+    for(std::size_t i = 0; i < r.size(); ++i)
+    {
+      S.xs[i].axpy(p[i], a);
+      r[i].axpy(q[i], -a);
+      z[i].component_product(r[i], inv[i]);
+    }
+    Q rz2 = S.dot(r, z);
+    Q beta = rz2 / rz;
+    for(std::size_t i = 0; i < r.size(); ++i) { p[i].scale(p[i], beta); p[i].axpy(z[i], Q(1)); }   // p = z + beta p
+    rz = rz2;
+  }
+  o << "V";
+  for(auto& x : S.xs) show_vec(o, x.local());
+  o << " R " << rz.str();
+}
+
 template<typename VT_>
 static bool dispatch(const std::string& op, Cur& c, std::ostream& o, Index bs)
 {
@@ -797,6 +830,7 @@ static void handle(const verif::Tokens& t, std::ostream& o)
   if(op == "ticket") { op_ticket(c, o); return; }
   if(op == "rich") { op_rich(c, o); return; }
   if(op == "cg") { op_cg(c, o); return; }
+  if(op == "pcg") { op_pcg(c, o); return; }
   if(op == "spljoin") { op_splitter(c, o, true); return; }
   if(op == "splsplit") { op_splitter(c, o, false); return; }
   if(op == "freqs" || op == "sync0" || op == "sync1" || op == "dot" || op == "mgather" || op == "mscatter"
